@@ -29,15 +29,18 @@ def main():
     prop, k, src = sys.argv[1], sys.argv[2], sys.argv[3]
     checks = [prop]
     skip_tests = "--skip-tests" in sys.argv
+    as_k = k
     for a in sys.argv[4:]:
         if a.startswith("--checks"):
             checks = a.split("=", 1)[1].split(",")
+        if a.startswith("--as="):
+            as_k = a.split("=", 1)[1]
     patch = os.path.join(src, "patch%s.diff" % k)
     demo = os.path.join(src, "demo%s.py" % k)
     notes = os.path.join(src, "notes.md")
-    out = "/verif/seeded/%s-%s" % (prop, k)
+    out = "/verif/seeded/%s-%s" % (prop, as_k)
     S = tempfile.mkdtemp(prefix="xseed.", dir="/tmp")
-    meta = dict(property=prop, index=int(k), source="independent sub-agent given only the property text and a scratch worktree", verified_at=time.strftime("%Y-%m-%d %H:%M:%S"))
+    meta = dict(property=prop, index=int(as_k), source="independent sub-agent given only the property text and a scratch worktree", verified_at=time.strftime("%Y-%m-%d %H:%M:%S"))
     try:
         sh("rsync -a --exclude .git --exclude docs /repo/ %s/" % S)
         rc, o = sh("patch -p1 -s < %s" % patch, cwd=S)
@@ -79,6 +82,7 @@ def main():
         shutil.copy(patch, os.path.join(out, "patch.diff"))
         shutil.copy(demo, os.path.join(out, "demo.py"))
         json.dump(meta, open(os.path.join(out, "meta.json"), "w"), indent=1)
+        k = as_k
         print("%s-%s valid=%s tests=%s demo=(%s,%s) detected=%s" % (prop, k, valid, meta.get("tests_with_patch"), rc0, rc1, {c: d["detected"] for c, d in det.items()}))
     finally:
         shutil.rmtree(S, ignore_errors=True)
